@@ -351,6 +351,7 @@ pub fn base_model(variant: usize) -> Model {
     _ = m.filter_exprs.insert("FLTR-R".into(), r);
     // filter-set objects the IRR knows but that carry no usable filter: no attribute at all / one that does not parse
     _ = m.db.filter_sets.insert("FLTR-NOFILTER".into(), vec!["@nofilter".into()]);
+    _ = m.db.filter_sets.insert("FLTR-EMPTY".into(), vec![]);
     _ = m.db.filter_sets.insert("FLTR-BADFILTER".into(), vec!["AS65001 AND AND }".into()]);
     // registry data with non-ASCII text: two objects whose run of two-byte characters starts at an even and at an
     // odd byte offset, so that every byte position of the first few hundred bytes falls inside a character of one
@@ -1086,6 +1087,8 @@ pub fn unobtainable_cases(report: &mut Report, id: &str) -> u64 {
         ("filter-set object without a filter attribute", "FLTR-NOFILTER", Plan::default()),
         ("filter-set object without a filter attribute in a union", "(FLTR-NOFILTER OR AS65002)", Plan::default()),
         ("filter-set whose filter does not parse", "FLTR-BADFILTER", Plan::default()),
+        ("filter-set query answered with success and no data", "FLTR-EMPTY", Plan::default()),
+        ("filter-set query answered with success and no data, in a union", "(FLTR-EMPTY OR AS65002)", Plan::default()),
         // the answer to the route-set query hands a member back as a name (RFC 2622 section 5.2 allows as-sets, AS
         // numbers and route-sets as members) and that name cannot be resolved
         ("route-set answer naming an unknown as-set", "RS-N1", Plan::default()),
